@@ -89,6 +89,32 @@ impl Error for NestedFault {
     }
 }
 
+/// A typed error that prints nothing.
+#[derive(Debug)]
+pub struct SilentFault {
+    pub tag: u64,
+}
+
+impl fmt::Display for SilentFault {
+    fn fmt(&self, _f: &mut fmt::Formatter<'_>) -> fmt::Result {
+        Ok(())
+    }
+}
+
+impl Error for SilentFault {}
+
+/// A zero-sized error type.
+#[derive(Debug)]
+pub struct UnitFault;
+
+impl fmt::Display for UnitFault {
+    fn fmt(&self, f: &mut fmt::Formatter<'_>) -> fmt::Result {
+        write!(f, "unit fault")
+    }
+}
+
+impl Error for UnitFault {}
+
 /// Tags are unique per run: instance number and call number.
 pub fn tag_of(inst: u32, call: u64) -> u64 {
     ((inst as u64 + 1) << 40) | (call & ((1 << 40) - 1))
@@ -111,6 +137,9 @@ pub fn make_payload(p: Payload, tag: u64) -> Box<dyn Error> {
             format!("simfault:{:016x}", tag),
         )),
         Payload::Nested => Box::new(NestedFault { inner: SimFault { tag } }),
+        Payload::InnerIvp => Box::new(bacon_sci::ivp::IVPError::UserError(Box::new(SimFault { tag }))),
+        Payload::Silent => Box::new(SilentFault { tag }),
+        Payload::Unit => Box::new(UnitFault),
     }
 }
 
@@ -125,6 +154,12 @@ pub struct Found {
     pub nested: bool,
     /// tags appearing as text in the `Display` of any element of the chain
     pub text: Vec<u64>,
+    /// tags of `SilentFault` objects reachable through the chain
+    pub silent: Vec<u64>,
+    /// a `UnitFault` is reachable through the chain
+    pub unit: bool,
+    /// number of `IVPError::UserError` elements in the chain (the item itself included)
+    pub ivp_user_errors: usize,
 }
 
 fn tags_in_text(s: &str, out: &mut Vec<u64>) {
@@ -158,6 +193,15 @@ pub fn scan_error(e: &(dyn Error + 'static)) -> Found {
         if x.downcast_ref::<NestedFault>().is_some() {
             f.nested = true;
         }
+        if let Some(sf) = x.downcast_ref::<SilentFault>() {
+            f.silent.push(sf.tag);
+        }
+        if x.downcast_ref::<UnitFault>().is_some() {
+            f.unit = true;
+        }
+        if let Some(bacon_sci::ivp::IVPError::UserError(_)) = x.downcast_ref::<bacon_sci::ivp::IVPError>() {
+            f.ivp_user_errors += 1;
+        }
         tags_in_text(&x.to_string(), &mut f.text);
         depth += 1;
         if depth > 16 {
@@ -178,11 +222,15 @@ impl Found {
             Payload::Io => self.io.contains(&tag),
             Payload::Nested => self.nested && self.typed.contains(&tag),
             Payload::Text => self.text.contains(&tag),
+            // the item itself is one IVPError::UserError, the user's error is a second one
+            Payload::InnerIvp => self.ivp_user_errors >= 2 && self.typed.contains(&tag),
+            Payload::Silent => self.silent.contains(&tag),
+            Payload::Unit => self.unit,
         }
     }
     pub fn all_tags(&self) -> Vec<u64> {
         let mut v = self.typed.clone();
-        for t in self.io.iter().chain(self.text.iter()) {
+        for t in self.io.iter().chain(self.text.iter()).chain(self.silent.iter()) {
             if !v.contains(t) {
                 v.push(*t);
             }
@@ -206,6 +254,12 @@ pub fn is_original(b: &(dyn Error + 'static), p: Payload, tag: u64) -> bool {
                 && b.to_string() == format!("lookup table out of range (simfault:{:016x})", tag)
                 && b.downcast_ref::<SimFault>().is_none()
         }
+        Payload::InnerIvp => match b.downcast_ref::<bacon_sci::ivp::IVPError>() {
+            Some(bacon_sci::ivp::IVPError::UserError(inner)) => inner.downcast_ref::<SimFault>().map(|f| f.tag) == Some(tag),
+            _ => false,
+        },
+        Payload::Silent => b.downcast_ref::<SilentFault>().map(|f| f.tag) == Some(tag),
+        Payload::Unit => b.downcast_ref::<UnitFault>().is_some(),
     }
 }
 
